@@ -196,3 +196,47 @@ def readStream (dataSegs : List Bytes) (dataEnd : DataEnd) (fuel : Nat) (ctrl : 
     | .ok r _ _ => if r.code = some 226 then .complete body r else .err .FTPServerError
 
 end Wpull.Ftp
+
+namespace Wpull.Ftp
+
+/-! ## Several fetches on one client: what a session leaves behind on the control connection -/
+
+/-- how the `with client.session()` block of a fetch is left -/
+inductive Exit
+  /-- no exception: `BaseSession.__exit__` recycles the session -/
+  | normal
+  /-- an exception (network error, timeout, listener failure, the processor's hook break, cancellation):
+  `BaseSession.__exit__` aborts the session first -/
+  | raised
+  deriving DecidableEq, Repr
+
+/-- one fetch as its control connection sees it: the replies the server sends for the commands of this fetch
+(ids, in order), how many replies the session had read when it left, and how it left -/
+structure Fetch where
+  replies : List Nat
+  read : Nat
+  exit : Exit
+  deriving Repr
+
+/-- `BaseSession.__exit__` + ftp `Session.abort` / `recycle`: an exception closes the control connection (what the
+server still sends on it is never seen by anyone); a normal exit returns it to the pool together with whatever
+is unread on it -/
+def leave (wire : List Nat) (f : Fetch) : Option (List Nat) :=
+  match f.exit with
+  | .raised => none
+  | .normal => some (wire.drop f.read)
+
+/-- the fetches of one client, one after the other: a pooled control connection is reused, so a session reads
+what is unread on it before its own replies.  Per fetch: did it open a fresh connection, and which replies did
+it read -/
+def runFetches : Option (List Nat) → List Fetch → List (Bool × List Nat)
+  | _, [] => []
+  | pooled, f :: fs =>
+    let wire := pooled.getD [] ++ f.replies
+    (pooled.isNone, wire.take f.read) :: runFetches (leave wire f) fs
+
+/-- a session that is left without an exception has read the reply to every command it sent (the transfer's closing
+reply included): every earlier way out of a fetch is an exception -/
+def Fetch.Settled (f : Fetch) : Prop := f.exit = .normal → f.replies.length ≤ f.read
+
+end Wpull.Ftp
